@@ -89,6 +89,34 @@ var funcGrid = func() []float64 {
 	return append(g, -0.1, 0.1, 0.3, -0.7, 1.1, 2.2, -2.9)
 }()
 
+// gridFor returns the value grid of a function: funcGrid plus the magnitude ladder (both signs), so
+// that any range split inside an implementation has points on both sides and the dual parts are
+// checked RELATIVE to their exact values at tiny and at large arguments too. Excluded, see NOTES.md:
+// arguments where f, f' or f” leaves [1e-280, 1e280] (overflow/underflow of the reference itself),
+// Tanh beyond 3 (1-tanh^2 cancels). PowReal and Sqrt below 1e-15 hit the finding
+// powreal-small-base-derivative (the derivative is evaluated at +-1e-15 instead of x).
+func gridFor(fn elemFn) []float64 {
+	g := append([]float64(nil), funcGrid...)
+	inRange := func(v float64) bool { a := math.Abs(v); return a >= 1e-280 && a <= 1e280 }
+	for _, m := range magnitudeLadder {
+		for _, x := range []float64{m, -m} {
+			if m < 1e-300 || !fn.dom(x) || !inRange(fn.f(x)) || !inRange(fn.d1(x)) || !inRange(fn.d2(x)) {
+				continue
+			}
+			if fn.name == "Tanh" && m > 3 {
+				continue
+			}
+			g = append(g, x)
+		}
+	}
+	return g
+}
+
+// smallPowBase reports the arguments of the known finding powreal-small-base-derivative.
+func smallPowBase(fn elemFn, x float64) bool {
+	return x != 0 && math.Abs(x) < 1e-15 && (fn.name == "Sqrt" || len(fn.name) > 7 && fn.name[:7] == "PowReal")
+}
+
 var specialReals = []float64{0, math.Copysign(0, -1), 1, -1, math.Inf(1), math.Inf(-1), math.NaN()}
 
 // dual seeds: (e) and (e1, e2, e12) are chosen pairwise different so that a mixed-up component is visible.
@@ -101,7 +129,8 @@ func genDualFuncs(g *vlib.G) {
 		g.Case("dual "+fn.name, func(t *vlib.T) {
 			t.Nontrivial()
 			n := 0
-			for _, x := range funcGrid {
+			smallReported := false
+			for _, x := range gridFor(fn) {
 				if !fn.dom(x) {
 					continue
 				}
@@ -111,6 +140,13 @@ func genDualFuncs(g *vlib.G) {
 						t.Failf("%s(%v+%vϵ).Real=%v want %v", fn.name, x, e, got.Real, fn.f(x))
 					}
 					if want := fn.d1(x) * e; !closeTo(got.Emag, want, tolFuncDual, 0) {
+						if smallPowBase(fn, x) {
+							if !smallReported {
+								smallReported = true
+								t.SubViolation("small-base", "powreal-small-base-derivative", nil, "%s(%v+%vϵ).Emag=%v want f'(x)*e=%v: for 0 < |x| < 1e-15 the derivative is evaluated at +-1e-15", fn.name, x, e, got.Emag, want)
+							}
+							continue
+						}
 						t.Failf("%s(%v+%vϵ).Emag=%v want f'(x)*e=%v", fn.name, x, e, got.Emag, want)
 					}
 					n++
@@ -221,7 +257,8 @@ func genHyperdualFuncs(g *vlib.G) {
 		g.Case("hyperdual "+fn.name, func(t *vlib.T) {
 			t.Nontrivial()
 			n := 0
-			for _, x := range funcGrid {
+			smallReported := false
+			for _, x := range gridFor(fn) {
 				if !fn.dom(x) {
 					continue
 				}
@@ -231,13 +268,22 @@ func genHyperdualFuncs(g *vlib.G) {
 					if !closeTo(got.Real, fn.f(x), tolFuncReal, 0) {
 						t.Failf("%s(%v).Real=%v want %v", fn.name, in, got.Real, fn.f(x))
 					}
+					a, b := fn.d1(x)*s[2], fn.d2(x)*s[0]*s[1]
+					okParts := closeTo(got.E1mag, fn.d1(x)*s[0], tolFuncDual, 0) && closeTo(got.E2mag, fn.d1(x)*s[1], tolFuncDual, 0) &&
+						!(math.Abs(got.E1E2mag-(a+b)) > tolFuncDual2*(math.Abs(a)+math.Abs(b)))
+					if !okParts && smallPowBase(fn, x) {
+						if !smallReported {
+							smallReported = true
+							t.SubViolation("small-base", "powreal-small-base-derivative", nil, "%s(%v)=%v want dual parts %v, %v, %v: for 0 < |x| < 1e-15 the derivatives are evaluated at +-1e-15", fn.name, in, got, fn.d1(x)*s[0], fn.d1(x)*s[1], a+b)
+						}
+						continue
+					}
 					if want := fn.d1(x) * s[0]; !closeTo(got.E1mag, want, tolFuncDual, 0) {
 						t.Failf("%s(%v).E1mag=%v want f'(x)*e1=%v", fn.name, in, got.E1mag, want)
 					}
 					if want := fn.d1(x) * s[1]; !closeTo(got.E2mag, want, tolFuncDual, 0) {
 						t.Failf("%s(%v).E2mag=%v want f'(x)*e2=%v", fn.name, in, got.E2mag, want)
 					}
-					a, b := fn.d1(x)*s[2], fn.d2(x)*s[0]*s[1]
 					if math.Abs(got.E1E2mag-(a+b)) > tolFuncDual2*(math.Abs(a)+math.Abs(b)) {
 						t.Failf("%s(%v).E1E2mag=%v want f'(x)*e12+f''(x)*e1*e2=%v", fn.name, in, got.E1E2mag, a+b)
 					}
